@@ -126,7 +126,7 @@ def run(names):
     r = sh("git", "-C", "/repo", "worktree", "add", "--detach", repo, "HEAD")
     assert r.returncode == 0, r.stderr
     os.makedirs(verif, exist_ok=True)
-    sh("rsync", "-a", "--delete", "--exclude", "harness/target", "--exclude", ".git", "--exclude", "evidence", "--exclude", "replays", "/verif/", verif + "/")
+    sh("rsync", "-a", "--delete", "--exclude", "harness/target*", "--exclude", ".git", "--exclude", "evidence", "--exclude", "replays", "/verif/", verif + "/")
     os.makedirs(verif + "/evidence", exist_ok=True)
     resfile = "/verif/mutants/results.json"
     results = json.load(open(resfile)) if os.path.exists(resfile) else {}
